@@ -106,11 +106,21 @@ func runBoardWriter(path, lock string, w int, sizes []int) error {
 		return err
 	}
 	defer fs.Close()
-	for k, sz := range sizes {
-		m := msgOfLineLen(sz, fmt.Sprintf("w%d-%d", w, k), 1)
-		if err := fs.Send(m); err != nil {
+	// messages go out in batches of 1..4 per Send call, as the node does with the result messages of an operation
+	// (one deal per participant); the lock is taken per message, so other writers may get in between
+	for k := 0; k < len(sizes); {
+		n := 1 + (k+w)%4
+		if k+n > len(sizes) {
+			n = len(sizes) - k
+		}
+		batch := make([]storage.Message, n)
+		for j := 0; j < n; j++ {
+			batch[j] = msgOfLineLen(sizes[k+j], fmt.Sprintf("w%d-%d", w, k+j), 1)
+		}
+		if err := fs.Send(batch...); err != nil {
 			return err
 		}
+		k += n
 	}
 	return nil
 }
